@@ -245,7 +245,11 @@ func (w *world) main() {
 	ch := simrt.Choose
 	w.lanes = 1 + ch("cfg.lanes", 4)
 	w.qsize = ch("cfg.qsize", 4)
-	w.timeout = []time.Duration{time.Millisecond, 10 * time.Millisecond, time.Second}[ch("cfg.timeout", 3)]
+	// 0 and negative: a push that cannot wait at all (time.After fires at once)
+	w.timeout = []time.Duration{time.Millisecond, 10 * time.Millisecond, time.Second, 0, -time.Second}[ch("cfg.timeout", 5)]
+	if w.timeout <= 0 {
+		simrt.Probe("non_positive_push_timeout")
+	}
 	ctxKind := ch("cfg.ctx", 6) // 0,1 live; 2 cancelled mid-run; 3 deadline; 4 already cancelled; 5 expired deadline / dead parent
 	producers := 1 + ch("cfg.producers", 3)
 	perProd := ch("cfg.tasks", 6)
